@@ -228,6 +228,8 @@ def main():
             print("  broken:", b[:400])
         rc = 1
     cov["broken"] = broken
+    if cov.get("input_samples"):
+        cov["samples"] = list(cov.get("samples", [])) + cov["input_samples"][:3]
     write_evidence(pid, ev)
     if rc == 0:
         print(f"OK property={pid} tier={tier} obligations={cov.get('obligations')} discharged={cov.get('discharged')} "
